@@ -7,6 +7,7 @@ rustc-expanded crates.  Function bodies are copied verbatim except for the logge
       `#[derive]` of the subset Verus understands (Clone, Copy, PartialEq, Eq) on the copied type
   R5  `super::` / `crate::` path prefixes dropped (everything is spliced into one flat module)
   R10 reference patterns in match arms, `Some(&x) => {`  ->  `Some(x_r_) => { let x = *x_r_;` (Verus has no ref patterns; same value)
+  R12 a statement under `#[cfg(debug_assertions)]` (debug-build self-check) is dropped, unverified
   R11 a closure is given parameter types, a named result and requires/ensures from the template, and its body is wrapped in
       braces: `|id| e`  ->  `|id: &usize| -> (r: usize) ensures .. { e }` (ghost annotation; the body text is unchanged)
   (R4, the timing-statistics statements, is applied by the index unit only and logged there.)
@@ -114,6 +115,14 @@ def drop_path_prefixes(text, log, where):
     return re.sub(r'\b(super|crate)::', repl, text)
 
 
+def drop_debug_only_statements(body, log, where):
+    """R12: a statement under `#[cfg(debug_assertions)]` (a self-check compiled only into debug builds) is dropped, unverified."""
+    def repl(m):
+        log.rw('R12', where, re.sub(r'\s+', ' ', m.group(0)))
+        return ''
+    return re.sub(r'#\[cfg\(debug_assertions\)\]\s*[^;{}]*;', repl, body)
+
+
 def rewrite_ref_patterns(body, log, where):
     """R10: `Some(&x) => {` -> `Some(x_r_) => { let x = *x_r_;`"""
     def repl(m):
@@ -218,7 +227,8 @@ def render_fn(fn_item, contract, log, where, in_trait_decl=False):
         out += '\n' + contract['clauses'].rstrip() + '\n'
     if body is None:
         return out + ';'
-    b = strip_attrs_in_body(body, log, where)
+    b = drop_debug_only_statements(body, log, where)
+    b = strip_attrs_in_body(b, log, where)
     b = drop_timing_statistics(b, log, where)
     b = rewrite_or_assign(b, log, where)
     b = rewrite_for_mut_ref(b, log, where)
